@@ -1,3 +1,6 @@
+import os, sys
+sys.path.insert(0, os.path.dirname(os.path.abspath(__file__)))
+import static_c15, static_c14
 """Per-property configuration of bin/check."""
 
 TRUSTED_BASE = [
@@ -43,29 +46,122 @@ PROPS = {
         'trusted': [],
     },
     'C10': {
-        'suites': [('queue', 1500, 60000)],
+        'suites': [('queue', 1500, 60000), ('rqueue', 800, 40000)],
         'rule': 'queue: random interleavings (3-40 ops + drain epilogue) of Add/Read(ids)/ReadInflight(n)/Remove/Replace/Init(clean or not)/Close/clock-shift on mem.Queue '
                 'with capacities 1-6, QoS mix, expiry none/past/+1h/+3h, clock shifts of 2h, read limits 30/40/1000 bytes, in-flight expiry 0 or 30 min; '
                 'non-trivial = at least one Read returned something and (a drop at Add or a non-empty in-flight replay) occurred',
         'assumptions': ['time passes only through the verif hook VerifShift (timestamps are hours apart, scheduling jitter is irrelevant)',
-                        'redis queue backend: not covered by this check yet'],
+                        'redis queue: driven over an in-process RESP stand-in for redis (harness/resp.go) incl. broker restarts; its refinement to the abstract queue is checked by the run (c10r_ok), not proved'],
         'trusted': ['persistence/queue/mem/verif_hooks.go (VerifShift, VerifReadWouldBlock, VerifDrained)'],
     },
     'C03': {
-        'suites': [('lim', 2000, 100000)],
+        'suites': [('lim', 2000, 100000), ('w_c03', 250, 10000)],
         'rule': 'lim: random histories of poll/release/batchRelease/markUsed/close on the real packetIDLimiter (limits 1..65535, forced wrap 65535->1 by presetting the cursor); '
-                'non-trivial = a poll returned ids and (a poll blocked or the ids wrapped)',
+                'non-trivial = a poll returned ids and (a poll blocked or the ids wrapped). '
+                'w_c03: wire scenarios: 1-2 persistent subscriber sessions (v3.1/3.1.1/5, Receive Maximum absent/1/2/3/5/65535, max_inflight 1..65535), a publisher and api_publish, acks prompt/late/out of order/never/'
+                'PUBREC without PUBCOMP/error codes, cuts by close, DISCONNECT, take-over, resumes (also with another version or Receive Maximum), bursts > 100; oracle: replay before new messages in order with same id and DUP=1 or PUBREL, '
+                'first transmission DUP=0, ids of outstanding publishes distinct and non-zero, window never exceeded, nothing held back while the window has room',
         'assumptions': ['markUsed is only called for ids that are not in use (what pollInflights does)'],
         'trusted': ['server/verif_hooks.go: VerifLimiter'],
     },
     'C04': {
-        'suites': [('unack', 2000, 100000)],
-        'rule': 'unack: random histories of Init/Set/Remove on the mem unack store; non-trivial = a duplicate was reported',
+        'suites': [('unack', 2000, 100000), ('w_c04', 300, 12000)],
+        'rule': 'unack: random histories of Init/Set/Remove on the mem unack store; non-trivial = a duplicate was reported. '
+                'w_c04: wire scenarios: 1-2 subscribers (v3.1/3.1.1/5, all option bits) stay connected, 1-2 publishers send QoS 0/1/2 with ids from {1,2,3,7,255,256,65535}, '
+                'retransmissions (same/other content, interleaved ids), PUBREL in any order / repeated / unknown, close/DISCONNECT/take-over, reconnect with Clean Start 0/1, expiry; '
+                'oracle: exactly one ack per packet with the same id, a PUBLISH whose id is outstanding in the sender session is forwarded to nobody, a free id is forwarded per subscription table',
+        'props': ['C04', 'C04w'],
         'assumptions': [], 'trusted': [],
     },
     'C13': {
         'suites': [('alias', 2000, 100000)],
         'rule': 'alias: topic sequences over a pool of 1-8 topics against the fifo alias manager with maxima 0,1,2,3,5,65535; non-trivial = an alias was reused and an eviction happened',
         'assumptions': [], 'trusted': [],
+    },
+    'C05': {
+        'suites': [('w_c05', 300, 12000)],
+        'rule': 'w_c05: wire histories of 3 client ids: connect (v3.1/3.1.1/5, Clean Start 0/1, Session Expiry absent/0/1/2/5/30/100/7200/100000/0xFFFFFFFF, also while the id is attached elsewhere), '
+                'subscribe/unsubscribe, publish to online/offline/dead-but-attached sessions, acks via symbolic ids, DISCONNECT with/without new expiry, abrupt close, TerminateSession, '
+                'clock advances just below/above the expiry in play, expire_check; oracle: Session Present iff the statement says so, CONNACK expiry = min(requested, configured), '
+                'resumed sessions get exactly their unacknowledged messages and keep their subscriptions, fresh sessions get nothing, displaced sockets are closed and get nothing afterwards; '
+                'non-trivial = at least one PUBLISH delivered and >= 5 steps',
+        'assumptions': ['simultaneous CONNECTs are serialised by the runner (one step at a time); the locking that makes every interleaving a serialisation is C15'],
+        'trusted': ['harness/wire_runner.go quiescence barrier and independent codec (harness/WIRE.md)'],
+    },
+    'C12': {
+        'suites': [('w_c12', 300, 12000)],
+        'rule': 'w_c12: publishers p1,p2 and subscribers s1..s3 (v3.1/3.1.1/5, Receive Maximum 1-3 or absent), one subscription each, publishes with Message Expiry absent/0/1/2/3/5/60/61/7200/7201/100000/2^32-1, '
+                'configured maximum 0/1/2/60/7200/100000, subscribers offline / window full / slow to ack, clock advances aimed just below/above deadlines (100 ms mod 1 s), one real sleep in 1/16 scenarios; '
+                'oracle: an expired copy is never delivered and is reported dropped exactly once, a v5 subscriber gets original minus whole seconds waited (>= 1), unexpired copies are delivered as soon as the window allows',
+        'assumptions': ['time passes through VerifAdvance (queue timestamps shifted) except for the scripted sleeps'],
+        'trusted': ['harness/wire_runner.go', 'server/verif_hooks.go VerifAdvance'],
+    },
+    'C01': {
+        'suites': [('w_c01', 300, 12000)],
+        'rule': 'w_c01: 2-4 clients (v3.1/3.1.1/5) stay connected; SUBSCRIBE/re-SUBSCRIBE/UNSUBSCRIBE over 23 non-shared filters with every QoS x NoLocal x RAP x RetainHandling x subscription id; publishes over 13 topics '
+                '(QoS 0-2, RETAIN, empty and long payloads, v5 properties, inbound aliases, id reuse, retransmissions), api_publish, correct acks only or no acks (windows fill), both delivery modes, OnSubscribe hook in 1/4; '
+                'oracle: every received PUBLISH is a due copy (topic, payload, properties, QoS = min, RETAIN = published and RAP, subscription ids as a set, DUP 0), one copy per matching subscription (overlap) / one at the highest QoS (onlyonce), '
+                'NoLocal, nothing unaccounted, per-publisher order, nothing pending unless the window is full, exactly one ack with the same id',
+        'assumptions': ['concurrently publishing connections are serialised by the runner (one step at a time): every interleaving is explored as an order of steps, true races are the business of C15'],
+        'trusted': ['harness/wire_runner.go quiescence barrier and independent codec (harness/WIRE.md)'],
+    },
+    'C08': {
+        'suites': [('w_c08', 60, 3000)],
+        'rule': 'w_c08: 1-3 observers with arbitrary (incl. shared, $-topic) subscriptions, 2-3 will clients (v3.1/3.1.1/5, will QoS/retain/properties/Will Delay absent,0,1,100, Session Expiry absent,0,1,100,2^32-1), '
+                'every way of ending a connection (close, DISCONNECT 0x00/0x04 with or without expiry, protocol errors, keep-alive timeout, take-over, TerminateSession online/offline), real sleeps of 0.4/1.3/1.8 s around 1 s timers, '
+                'OnWillPublish drop/rewrite hook; oracle: the will is published exactly once, when due, to the then-matching subscribers with its fields, never after DISCONNECT 0x00 nor after a resume, retained wills are stored and replayed',
+        'assumptions': ['delayed wills use real timers: scenarios sleep 0.4 s (surely not fired) or >= 1.3 s (surely fired) around 1 s delays'],
+        'trusted': ['harness/wire_runner.go'],
+    },
+    'C06': {
+        'suites': [('codec', 8000, 400000), ('cenc', 3000, 100000), ('ctopic', 8000, 400000), ('cmsg', 2000, 50000)],
+        'rule': 'codec: valid packets of all 15 types and all properties encoded by an independent encoder, CONNECT+following packets on one reader, truncation at every offset, remaining length +/-/huge, non-canonical and 5-9 byte varints, '
+                '7 property mutations, 4 UTF-8 mutations, flag flips, trailing bytes, byte flip/insert/delete, version mismatch, raw bytes, under v3.1/3.1.1/5; compared: every decoded field, consumed bytes, TotalBytes, re-encoding and its re-decode, error class, allocation. '
+                'cenc: encode side; ctopic: the four validity predicates on strings over {a,b,/,+,#,$,NUL,U+FFFD,...}; cmsg: Message.TotalBytes vs encoded PUBLISH; non-trivial = at least two bytes / a valid packet',
+        'assumptions': ['bufio/io.ReadFull are modelled as "the byte list, then EOF"', 'allocation is observed as runtime.MemStats.TotalAlloc delta with a tolerance for size-class rounding'],
+        'trusted': ['harness/codec.go independent encoder'],
+    },
+    'C09': {
+        'suites': [('rsub', 600, 40000), ('runack', 600, 40000), ('crash', 24, 1500)],
+        'rule': 'crash: broker-level histories (3 clients, 6-24 steps: persistent sessions, subscriptions with all options, unsubscribes, QoS1/2 publishes to online/offline subscribers, partial ack flows) on the redis backend over an in-process RESP stand-in '
+                'that journals every write command; for EVERY prefix of the journal a fresh broker is started on the prefix state (start-up must succeed) and sessions, subscriptions, redelivery and QoS2 duplicate recognition are inspected against what had been acknowledged. '
+                'rsub/runack: store-level histories incl. restarts against the extracted models',
+        'assumptions': ['the RESP stand-in (harness/resp.go) implements the commands used (hset hmget hgetall hdel del llen lrange lrem lset rpush scan ping select auth ...) as redis documents them',
+                        'crash points are between storage commands of quiescent steps; a crash while two handlers interleave their commands is not enumerated'],
+        'trusted': ['harness/resp.go', 'harness/redis.go scripted client'],
+    },
+    'C16': {
+        'suites': [('fedq', 1500, 100000)],
+        'rule': 'fedq: the real eventQueue + sessionMgr + Hello + eventStreamHandler + EventStream loop driven through an in-memory stream double by generated schedules of emit (subscribe/unsubscribe/session end/message), send, deliver, ack, cut, '
+                'hello (ok / request lost / reply lost / open fails), peer lost / join, bursts of 95-130 events across the 100-event batch and LRU; non-trivial = >= 3 applied events and a fault or peer loss',
+        'assumptions': ['gRPC/serf are replaced by an in-memory stream double; a cut drops both in-flight buffers atomically'],
+        'trusted': ['plugin/federation/verif_hooks.go'],
+    },
+    'C17': {
+        'suites': [('fedr', 2500, 200000)],
+        'rule': 'fedr: sendMessage on a Federation with 1-3 injected peers and generated subscription distributions (plain, wildcard, $, shared groups spanning nodes) consistent with the federation tree, 1-6 publishes (retained / empty payload / through OnMsgArrived or OnWillPublish wrappers), '
+                'receiver side applying message events; observables: events appended per peer queue, drop flag, rewritten iteration options, receiver publishes and retained store',
+        'assumptions': ['the federation tree equals the peers local subscriptions (stable state, as the statement requires)'],
+        'trusted': ['plugin/federation/verif_hooks.go'],
+    },
+    'C19': {
+        'suites': [('auth', 500, 30000), ('authwire', 40, 2500)],
+        'rule': 'auth: a real auth.Auth per hash algorithm (plain/md5/sha256/bcrypt cost 4), histories of Update/Delete through the gRPC handlers incl. failing saves, validations of right / near-miss / empty / 65535-byte credentials, reload by a second instance from another working directory, directory of the password file renamed away and back; '
+                'authwire: in-process broker with the plugin, CONNECTs of v3.1/3.1.1/5 with every flag combination and AuthMethod, unauthenticated packets of every type before CONNECT and after a refused one, then inspection of sessions/subscriptions/retained',
+        'assumptions': ['md5/sha256/bcrypt are abstract functions of the model (Section variables); their values are supplied per case by the harness and cross-checked', 'gen_sound: every bcrypt hash generated during a run verifies its password, checked on the bcrypt table sent with the case'],
+        'trusted': ['plugin/auth/verif_hooks.go', 'x/crypto/bcrypt, yaml.v2 round trip'],
+    },
+    'C15': {
+        'suites': [], 'static': static_c15.static,
+        'rule': 'static: lock table / life-cycle models regenerated from the source; stress: random clients + 4 API goroutines + concurrent Stop under -race, 6 probes',
+        'assumptions': ['every socket read/write eventually returns (peer, deadline or Close)',
+                        'lock classes identify all instances of a mutex field; RLock = Lock',
+                        'ConnLife bounds: rx0=3, msgs0=2, channel cap 1, fuel 400; StopLife: 2 callers, 2 connections'],
+        'trusted': ['/verif/gen translators report what the source says (go/parser + go/types based; loud failure on constructs they do not understand)', '/verif/stress harness; Go race detector'],
+    },
+    'C14': {
+        'suites': [], 'static': static_c14.static, 'props': [],
+        'rule': 'static: Gen/HookKinds.v regenerated from server/plugin.go, hook.go, server.go (one row per HookWrapper field: collected / applied / loop direction / base / store)',
+        'assumptions': [], 'trusted': ['/verif/gen translators report what the source says'],
     },
 }
